@@ -305,12 +305,11 @@ class DocumentationAggregator(CMakeListener):
         elif arg_len == 1:  # String
             value = ctx.single_argument()[1].getText()
 
-            # If the value includes the quote marks,
-            # need to remove them to get just the raw string
-            if value[0] == '"':
-                value = value[1:]
-            if value[-1] == '"':
-                value = value[:-1]
+            # If the value is a quoted argument, remove the surrounding pair of
+            # quote marks to get just the raw string. A quote at only one end is part of
+            # an unquoted argument (e.g. an escaped quote, a\") and stays as written.
+            if len(value) >= 2 and value[0] == '"' and value[-1] == '"':
+                value = value[1:-1]
             self.documented.append(VariableDocumentation(
                 varname, docstring, VarType.STRING, value))
         else:  # Unset
